@@ -77,6 +77,7 @@ class Sched(object):
 
         def run():
             self.by_ident[_thread.get_ident()] = t
+            t.native = _rt.get_native_id() if hasattr(_rt, "get_native_id") else None
             t.sem.acquire()
             if self.abort:
                 t.state = "finished"
@@ -116,19 +117,37 @@ class Sched(object):
     def is_enabled(self, t):
         return t.state == "ready" and (t.guard is None or t.guard())
 
-    STEP_TIMEOUT = 20.0
+    STEP_TIMEOUT = 20.0          # a thread BLOCKED for that long in something the scheduler does not control is "stuck"
+    STARVED_LIMIT = 240.0        # ... while one that is merely not given the processor (overloaded machine) is waited for
+
+    @staticmethod
+    def _os_state(native):
+        """State letter of an OS thread of this process (R running / runnable, S sleeping, D disk wait ...), or '?'."""
+        try:
+            with open("/proc/self/task/%d/stat" % native) as f:
+                return f.read().rsplit(")", 1)[1].split()[0]
+        except (OSError, IndexError, TypeError):
+            return "?"
 
     def step(self, t, timeout=False):
-        """Runs thread t until its next yield point (or its end).  A thread that does not come back within STEP_TIMEOUT
-        is blocked in a call the scheduler does not control (a real lock / event / socket): it is marked "stuck", is
-        never scheduled again, and the run goes on with the others (drivers report it as a blocked thread)."""
+        """Runs thread t until its next yield point (or its end).  A thread that does not come back is either blocked in a
+        call the scheduler does not control (a real lock / event / socket) or simply not scheduled by an overloaded
+        machine; the two are told apart by the thread's OS state: only a thread seen SLEEPING at every look for
+        STEP_TIMEOUT seconds (or not back after STARVED_LIMIT) is marked "stuck" - it is never scheduled again and the
+        run goes on with the others (drivers report it as a blocked thread)."""
         assert t.state == "ready"
         t.timed_out = timeout
         self.steps += 1
         t.sem.release()
-        if not self.back.acquire(timeout=self.STEP_TIMEOUT):
-            t.state = "stuck"
-            self.stuck.append(t.idx)
+        waited, asleep = 0.0, 0.0
+        while not self.back.acquire(timeout=1.0):
+            waited += 1.0
+            st = self._os_state(getattr(t, "native", None))
+            asleep = asleep + 1.0 if st in ("S", "D", "?") else 0.0
+            if asleep >= self.STEP_TIMEOUT or waited >= self.STARVED_LIMIT:
+                t.state = "stuck"
+                self.stuck.append(t.idx)
+                return
 
     def by_idx(self, idx):
         for t in self.threads:
